@@ -1676,4 +1676,139 @@ def svmRowOutPy (r : SvmRow) : List (Int × Text) × List Text :=
 def svmNumOk (r : SvmRow) : Bool :=
   r.feats.all (fun kv => kv.1 ≠ [] && kv.1.all isDigit && isFloatLitPy kv.2)
 
+/-! ## L. (phase 6) Histories of `DiskSink` / `DiskSource` operations over a set of files
+
+A *history* is any sequence of operations on any number of paths: `DiskSink(p, batch=b).write(lines)` (append mode — the
+default `'a+'`), a complete `list(DiskSource(p).read())`, and a read that is abandoned after `k` lines
+(`islice(DiskSource(p).read(), k)`, generator closed).  The state is the file system: per path the list of byte strings
+that were appended (plain: the concatenation is the file; `.gz`: one gzip member each).  Reads do not change it. -/
+
+/-- an association list from path ids to lists (files: appended byte strings; spec: lines written so far) -/
+abbrev Store (α : Type) := List (Nat × List α)
+
+def storeGet {α : Type} : Store α → Nat → Option (List α)
+  | [], _ => none
+  | (q, x) :: r, p => if q = p then some x else storeGet r p
+
+/-- opening in append mode creates the file; writing appends -/
+def storeAppend {α : Type} : Store α → Nat → List α → Store α
+  | [], p, xs => [(p, xs)]
+  | (q, x) :: r, p, xs => if q = p then (q, x ++ xs) :: r else (q, x) :: storeAppend r p xs
+
+inductive DiskOp where
+  | write (p : Nat) (batch : Option Nat) (lines : List Text)
+  | read (p : Nat)
+  | readk (p : Nat) (k : Nat)
+  deriving Repr
+
+/-- what one operation returns: nothing (a write), the lines of a read, or FileNotFoundError -/
+inductive DiskOut where
+  | wrote
+  | lines (r : Except Err (List Text))
+  | nofile
+  deriving Repr
+
+/-- one operation on the real objects; `rd` turns the appended byte strings into the bytes the opener hands to the text
+layer (plain: concatenation; `.gz`: gunzip of the concatenated members). A write whose lines cannot be encoded raises. -/
+def diskStep (rd : List (List Nat) → List Nat) (fs : Store (List Nat)) : DiskOp → Except Err (Store (List Nat) × DiskOut)
+  | .write p b ls =>
+    match diskWriteParts b ls with
+    | .error e => .error e
+    | .ok parts => .ok (storeAppend fs p parts, .wrote)
+  | .read p =>
+    match storeGet fs p with
+    | none => .ok (fs, .nofile)
+    | some parts => .ok (fs, .lines (diskRead (rd parts)))
+  | .readk p k =>
+    match storeGet fs p with
+    | none => .ok (fs, .nofile)
+    | some parts => .ok (fs, .lines ((diskRead (rd parts)).map (List.take k)))
+
+def diskRun (rd : List (List Nat) → List Nat) (fs : Store (List Nat)) : List DiskOp → Except Err (List DiskOut)
+  | [] => .ok []
+  | op :: ops =>
+    match diskStep rd fs op with
+    | .error e => .error e
+    | .ok (fs', out) =>
+      match diskRun rd fs' ops with
+      | .error e => .error e
+      | .ok outs => .ok (out :: outs)
+
+/-- the spec: per path the lines written so far, in order; a read returns exactly them (a prefix when abandoned),
+whatever happened before on this or any other path -/
+def diskSpecRun (st : Store Text) : List DiskOp → List DiskOut
+  | [] => []
+  | .write p _ ls :: ops => .wrote :: diskSpecRun (storeAppend st p ls) ops
+  | .read p :: ops =>
+    (match storeGet st p with | none => DiskOut.nofile | some ls => .lines (.ok ls)) :: diskSpecRun st ops
+  | .readk p k :: ops =>
+    (match storeGet st p with | none => DiskOut.nofile | some ls => .lines (.ok (ls.take k))) :: diskSpecRun st ops
+
+/-- the lines an operation writes are Python strings of scalar values without `\r` / `\n` -/
+def diskOpOk : DiskOp → Bool
+  | .write _ _ ls => ls.all (fun l => noNl l && l.all isScalar)
+  | _ => true
+
+/-! ## M. (phase 6) the labelled CSV pipeline: `CsvReader | LabelRows(label, tipe)` -/
+
+/-- the `label` argument of `LabelRows` / `label_col` of `SupervisedSimulation`: a column index (negative counts from the
+end) or a header name -/
+inductive LabelRef where
+  | idx (i : Int)
+  | name (t : Text)
+  deriving Repr
+
+/-- `dict(zip(headers, count()))[name]` (`HeadRows`): the LAST column that carries the name -/
+def headerIndexGo (name : Text) : Nat → Option Nat → List Text → Option Nat
+  | _, acc, [] => acc
+  | i, acc, h :: hs => headerIndexGo name (i + 1) (if h = name then some i else acc) hs
+
+def headerIndex (hdr : List Text) (name : Text) : Option Nat := headerIndexGo name 0 none hdr
+
+/-- `LabelRows.filter` on dense rows: `ind = first.headers[label] if isinstance(label,str) else label`, then
+`if ind < 0: ind += len(first)`; `none` = the lookup raises (no headers / unknown name) -/
+def labelIndex (hdr : Option (List Text)) (firstLen : Nat) : LabelRef → Option Int
+  | .idx i => some (if i < 0 then i + firstLen else i)
+  | .name t =>
+    match hdr with
+    | none => none
+    | some h => (headerIndex h t).map (fun (j : Nat) => if (j : Int) < 0 then (j : Int) + firstLen else (j : Int))
+
+/-- `LabelDense(row, ind)` materialised: `(list(row.feats), row.label)` = `DropOne(row, ind)` and `row[ind]`;
+`none` = an exception when materialised (index outside the row) -/
+def labelDense (ind : Int) (row : List Text) : Option (List Text × Text) :=
+  if ind < 0 then none
+  else match row[ind.toNat]? with
+    | none => none
+    | some l => some (row.eraseIdx ind.toNat, l)
+
+def labelDenseAll (ind : Int) : List (List Text) → Option (List (List Text × Text))
+  | [] => some []
+  | r :: rs => match labelDense ind r, labelDenseAll ind rs with
+    | some x, some xs => some (x :: xs)
+    | _, _ => none
+
+/-- `[(list(r.feats), r.label) for r in LabelRows(label, tipe).filter(rows)]` on the rows a `CsvReader` returned -/
+def labelRows (hdr : Option (List Text)) (ref : LabelRef) : List (List Text) → Option (List (List Text × Text))
+  | [] => some []
+  | first :: rest =>
+    match labelIndex hdr first.length ref with
+    | none => none
+    | some ind => labelDenseAll ind (first :: rest)
+
+/-- `Pipes.join(CsvReader(has_header, **dialect), LabelRows(label, tipe)).filter(lines)`, materialised -/
+def csvLabelRead (d : Dialect) (hasHeader : Bool) (ref : LabelRef) (lines : List Text) :
+    Except Err (Option (List (List Text × Text))) :=
+  match csvReaderFix d hasHeader lines with
+  | .error e => .error e
+  | .ok (hdr, rows) => .ok (labelRows hdr ref rows)
+
+/-- spec: the column a label reference names in a table of width `n` -/
+def labelCol (hdr : Option (List Text)) (n : Nat) : LabelRef → Option Nat
+  | .idx i => if 0 ≤ i ∧ i < n then some i.toNat else if i < 0 ∧ -(n : Int) ≤ i then some (i + n).toNat else none
+  | .name t => match hdr with | none => none | some h => headerIndex h t
+
+/-- spec: what the file says — the other cells in written order, and the label cell -/
+def labelSplit (j : Nat) (row : List Text) : List Text × Text := (row.eraseIdx j, row.getD j [])
+
 end Coba.C12
